@@ -35,18 +35,58 @@ class C20Monitor(Monitor):
     name = "c20"
     prop = "C20"
 
-    def bad(self, clause: str, msg: str, **detail):
-        raise Violation("C20", clause, msg, sig=clause, detail=detail)
+    def bad(self, clause: str, msg: str, sig_extra: str = "", **detail):
+        raise Violation("C20", clause, msg, sig=clause + (":" + sig_extra if sig_extra else ""), detail=detail)
+
+    def install(self, run):
+        import copy
+
+        # the declaration is kept apart from the dict handed to the code (which is free to consume what it is given)
+        self.pristine = copy.deepcopy(run.scenario)
+
+    @staticmethod
+    def schedule_config(path: str, episode: int) -> Dict:
+        """The scenario an episode-scheduled directory declares for an episode, assembled independently of the code:
+        schedule.yaml names the base scenario and, per episode, the variant files whose text is put in front of the
+        base scenario's text (so that its anchors resolve); past the end the schedule starts again."""
+        import os
+
+        import yaml
+
+        with open(os.path.join(path, "schedule.yaml")) as f:
+            sched = yaml.safe_load(f)
+        order = sched["schedule"]
+        keys = sorted(order)
+        files = order[keys[episode % len(keys)]]
+        texts = []
+        for fn in list(files) + [sched["base_scenario"]]:
+            with open(os.path.join(path, fn)) as f:
+                texts.append(f.read())
+        cfg = yaml.safe_load("\n".join(texts))
+        flat = []
+        for a in cfg.get("agents") or []:
+            if isinstance(a, list):
+                flat.extend(a)
+            else:
+                flat.append(a)
+        cfg["agents"] = flat
+        return cfg
+
+    def declared(self, run, episode: int) -> Dict:
+        import copy
+
+        path = getattr(run, "schedule_path", None)
+        if path:
+            run.probe("c20_schedule_episode_compared")
+            return self.schedule_config(path, episode)
+        return copy.deepcopy(self.pristine)
 
     def after_build(self, run):
-        self.compare(run, run.scenario, "after construction")
+        self.compare(run, self.declared(run, 0), "after construction")
 
     def after_reset(self, run, seed, ret):
-        try:
-            cfg = run.env.episode_scheduler(run.env.episode_counter)
-        except Exception:
-            cfg = run.scenario
-        self.compare(run, cfg, f"after reset (episode {run.env.episode_counter})", after_reset=True)
+        ep = run.env.episode_counter
+        self.compare(run, self.declared(run, ep), f"after reset (episode {ep})", after_reset=True)
 
     def compare(self, run, cfg: Dict, when: str, after_reset: bool = False):
         game = run.env.game if getattr(run, "env", None) is not None else run.game
@@ -80,6 +120,20 @@ class C20Monitor(Monitor):
             for k, attr in (("start_up_duration", "start_up_duration"), ("shut_down_duration", "shut_down_duration"), ("node_scan_duration", "node_scan_duration")):
                 if k in c and getattr(node.config, attr) != c[k]:
                     self.bad("node-duration-differs", f"{when}: {hn} {k} declared {c[k]}, built {getattr(node.config, attr)}", key=k)
+        # defaults blocks: a stated default holds for every item that does not state the value itself
+        for where, dcfg in (("defaults", cfg.get("defaults") or {}), ("simulation.defaults", (cfg.get("simulation") or {}).get("defaults") or {})):
+            for hn, c in declared.items():
+                node = built[hn]
+                for dk, ck in (("node_start_up_duration", "start_up_duration"), ("node_shut_down_duration", "shut_down_duration"), ("node_scan_duration", "node_scan_duration")):
+                    if dk in dcfg and ck not in c and hasattr(node.config, ck) and getattr(node.config, ck) != dcfg[dk]:
+                        self.bad("declared-default-not-honoured", f"{when}: {where}.{dk} is {dcfg[dk]} and {hn} does not state {ck}, but it was built with {getattr(node.config, ck)}", sig_extra=f"{where}:{dk}", key=dk, block=where)
+                if "service_fix_duration" in dcfg and c["type"] in HOST_TYPES:
+                    for entry in c.get("services") or []:
+                        inst = node.software_manager.software.get(entry["type"])
+                        if inst is not None and "fixing_duration" not in (entry.get("options") or {}) and inst.config.fixing_duration != dcfg["service_fix_duration"]:
+                            self.bad("declared-default-not-honoured", f"{when}: {where}.service_fix_duration is {dcfg['service_fix_duration']} and {hn}/{entry['type']} does not state fixing_duration, but it was built with {inst.config.fixing_duration}", sig_extra=f"{where}:service_fix_duration", key="service_fix_duration", block=where)
+            if dcfg:
+                run.probe("c20_defaults_block_compared")
         # links
         want_links = []
         for l in ncfg.get("links") or []:
